@@ -46,3 +46,19 @@ chk("C18", "E5-grid", "exploration",
     "Wallet/account populations (plain and distributed, regex-significant names) x permission tables x every list of requested paths up to length 2 (3 in thorough) x clients, before and after dynamic account creation, through the real gRPC lister handler; the returned set must lie between the must-contain and may-contain sets of a reference lister, with names and keys equal to the store's.",
     "Trusted: names and patterns outside the alphabets behave like their representatives.",
     "exhaustive configuration x request grid against a reference lister (set inclusion both ways)", "5/C18")
+chk("C12", "E6-dkg", "exploration",
+    "Clusters of n real instances wired through their real receiver handlers; full grid over n, every t in 0..n+1, identifier sets (small, large, near 2^64, mixed), every initiator, every participant order and commit completion order for small n, tampered commit replies; on success the algebraic consistency oracle and real threshold-signature recovery over every t-subset and (t-1)-subset are evaluated, plus immediate signing/listing on every participant.",
+    "Trusted: BLS library; the gRPC sender/TLS between peers is replaced by direct delivery of marshalled messages to the real handlers; n <= 4 (quick) / 7 (thorough).",
+    "exhaustive configuration x order grid with algebraic and threshold-signature oracle", "5/C12")
+chk("C13", "E6-dkg", "fault_enumeration",
+    "Every execution of a full generation with at most d faults over all prepare/execute/contribute messages and contribution replies (lost, error reply, random share, other identifier, altered commitment, short vector, long vector with consistent share, duplicate) for (n,t) in {(2,2),(3,2),(3,3),(4,3)}, in worker processes so that a crash is observed and attributed to the announced case.",
+    "Trusted: commit/abort messages are not faulted; site-keyed deviations (robust against map-iteration order inside OnExecute).",
+    "deviation-bounded exhaustive fault injection on every protocol message of the implementation", "5/C13")
+chk("C16", "E6-dkg", "model_checking",
+    "BFS over protocol events of a real three-instance cluster; in every reachable session state every non-peer identity sends every protocol message to an instance through its real receiver handler and must be refused with the state unchanged; share ownership is checked on the reply to every authenticated contributor; a generation must still complete when a non-peer message arrives before each phase.",
+    "Trusted: the identity is what ClientInfoInterceptor puts in the context (C19).",
+    "explicit-state BFS of the implementation with identity x message grid in every state", "5/C16")
+chk("C17", "E6-dkg", "model_checking",
+    "BFS over event sequences (prepare/execute/contribute from participants and from a configured non-participant peer/commit/abort for two account names, clock advance) delivered to one real instance through its receiver handler, with lifecycle monitors from the property text on every transition and the harness's own record of who contributed.",
+    "Trusted: threshold 2 of 3 only; session fate after a failed commit is unspecified and follows the implementation.",
+    "explicit-state BFS of the implementation with lifecycle monitors on every transition", "5/C17")
